@@ -165,6 +165,10 @@ func checkC04(c *Check) {
 				}
 				if ec, isC := d.(*ssa.Call); isC && isCallTo(ec, "encoding/base64.Encoding.EncodeToString") {
 					enc = true
+					// the standard alphabet with padding (RFC 7617): the encoder is the package's StdEncoding object
+					if ld, isL := resolveCell(stripConv(ec.Common().Args[0])).(*ssa.UnOp); !isL || !isGlobalNamed(ld.X, "encoding/base64", "StdEncoding") {
+						enc = false
+					}
 					// id before secret inside the encoded string
 					for _, l := range []ssa.Value{ec.Common().Args[1]} {
 						order := Leaves(l, leafOpts{})
@@ -426,4 +430,10 @@ func transportPreservesRequest(c *Check, rule string) {
 	}
 	c.Obl(nRT >= 1 && nDump >= 1, rule, "transport-wrapper-found", "-", fmt.Sprintf("%d own RoundTripper(s), %d body-consuming request dump(s) analysed", nRT, nDump),
 		fmt.Sprintf("%d own RoundTrippers / %d request dumps found (the logging wrapper is the anchor of this rule)", nRT, nDump))
+}
+
+// isGlobalNamed: v is the package-level variable pkg.name.
+func isGlobalNamed(v ssa.Value, pkg, name string) bool {
+	g, ok := v.(*ssa.Global)
+	return ok && g.Pkg != nil && g.Pkg.Pkg.Path() == pkg && g.Name() == name
 }
